@@ -23,20 +23,34 @@ theorem precedence_table_S (reserved : List Ev) (r : Reg) (ns : Ns) (ev : Ev) :
     resolveS reserved r ns ev =
       table (reserved.contains ev) (r.nsExact ns ev) (r.nsCatch ns) (r.exact star ev) (r.fn star star)
         (r.nsCls ns) (r.cls star) (r.hasMethod ns ev) (r.hasMethod star ev) := by
-  simp only [resolveS, getEventHandler, eventHandlerNs, eventHandlerStar, getNamespaceHandlerS,
-    triggerEvent, table, Reg.hasMethod, Reg.nsExact, Reg.nsCatch, Reg.nsCls, bne]
-  cases (ns == star) <;> cases reserved.contains ev <;> cases r.exact ns ev <;> cases r.fn ns star <;>
-    cases r.exact star ev <;> cases r.fn star star <;> cases r.cls ns <;> cases r.cls star <;> rfl
+  by_cases hns : ns = star
+  · have hb : (ns == star) = true := by simpa using hns
+    simp only [resolveS, getEventHandler, eventHandlerNs, eventHandlerStar, getNamespaceHandlerS,
+      triggerEvent, table, Reg.hasMethod, Reg.nsExact, Reg.nsCatch, Reg.nsCls, bne, hb]
+    cases reserved.contains ev <;> cases r.exact ns ev <;> cases r.fn ns star <;>
+      cases r.exact star ev <;> cases r.fn star star <;> cases r.cls ns <;> cases r.cls star <;> rfl
+  · have hb : (ns == star) = false := by simpa using hns
+    simp only [resolveS, getEventHandler, eventHandlerNs, eventHandlerStar, getNamespaceHandlerS,
+      triggerEvent, table, Reg.hasMethod, Reg.nsExact, Reg.nsCatch, Reg.nsCls, bne, hb]
+    cases reserved.contains ev <;> cases r.exact ns ev <;> cases r.fn ns star <;>
+      cases r.exact star ev <;> cases r.fn star star <;> cases r.cls ns <;> cases r.cls star <;> rfl
 
 /-- General form (client transcription). -/
 theorem precedence_table_C (reserved : List Ev) (r : Reg) (ns : Ns) (ev : Ev) :
     resolveC reserved r ns ev =
       table (reserved.contains ev) (r.nsExact ns ev) (r.nsCatch ns) (r.exact star ev) (r.fn star star)
         (r.nsCls ns) (r.cls star) (r.hasMethod ns ev) (r.hasMethod star ev) := by
-  simp only [resolveC, getEventHandler, eventHandlerNs, eventHandlerStar, getNamespaceHandlerC,
-    triggerEvent, table, Reg.hasMethod, Reg.nsExact, Reg.nsCatch, Reg.nsCls, bne]
-  cases (ns == star) <;> cases reserved.contains ev <;> cases r.exact ns ev <;> cases r.fn ns star <;>
-    cases r.exact star ev <;> cases r.fn star star <;> cases r.cls ns <;> cases r.cls star <;> rfl
+  by_cases hns : ns = star
+  · have hb : (ns == star) = true := by simpa using hns
+    simp only [resolveC, getEventHandler, eventHandlerNs, eventHandlerStar, getNamespaceHandlerC,
+      triggerEvent, table, Reg.hasMethod, Reg.nsExact, Reg.nsCatch, Reg.nsCls, bne, hb]
+    cases reserved.contains ev <;> cases r.exact ns ev <;> cases r.fn ns star <;>
+      cases r.exact star ev <;> cases r.fn star star <;> cases r.cls ns <;> cases r.cls star <;> rfl
+  · have hb : (ns == star) = false := by simpa using hns
+    simp only [resolveC, getEventHandler, eventHandlerNs, eventHandlerStar, getNamespaceHandlerC,
+      triggerEvent, table, Reg.hasMethod, Reg.nsExact, Reg.nsCatch, Reg.nsCls, bne, hb]
+    cases reserved.contains ev <;> cases r.exact ns ev <;> cases r.fn ns star <;>
+      cases r.exact star ev <;> cases r.fn star star <;> cases r.cls ns <;> cases r.cls star <;> rfl
 
 /-- All four classes, with the regenerated reserved lists. -/
 theorem precedence_table (k : Kind) (r : Reg) (ns : Ns) (ev : Ev) :
@@ -371,8 +385,9 @@ example : resolveServer exReg "/chat".toList "connect_error".toList
 example : resolveServer exReg "/chat".toList star = .invoke .fnStarStar [.ev, .ns] := by decide
 example : resolveAsyncClient { exReg with fn := fun n e => n = "/chat".toList ∧ e = star } "/chat".toList star
     = .invoke .fnNsStar [.ev] := by decide
--- a namespace literally named "*": the catch-all namespace's handler runs without the namespace
-example : resolveServer exReg star "msg".toList = .invoke .fnNsEv [] := by decide
+-- a namespace literally named "*": never an exact match, the namespace is prepended
+example : resolveServer exReg star "msg".toList = .invoke .fnStarEv [.ns] := by decide
+example : resolveAsyncClient exReg star "zzz".toList = .invoke .fnStarStar [.ev, .ns] := by decide
 example : "msg".toList ∉ reservedOf .server ∧ "/chat".toList ≠ star ∧ "msg".toList ≠ star := by decide
 example : eligibleFn (reservedOf .asyncClient) exReg "/chat".toList "connect".toList = false ∧
     exReg.cls "/chat".toList = true ∧ exReg.attr "/chat".toList (methodName "connect".toList) = false ∧
